@@ -1,6 +1,6 @@
 """Child process used by C05/C13: runs Pipeline.map for a pickled program with an optional injected fault.
 
-usage: python -m rtc.child_map <job.pickle>       job = {prog, folder, storage, cleanup, fault, logfile, parallel}
+usage: python -m rtc.child_map <job.pickle>       job = {prog, folder, storage, cleanup, fault, logfile, parallel, primed_inputs}
 fault: None | {"kind": "raise", "func": name, "call": n}
             | {"kind": "kill-before-open", "n": k}     os._exit before the k-th open-for-write after the first user call
             | {"kind": "kill-after-rename", "n": k}    os._exit right after the k-th rename inside the run folder
@@ -116,14 +116,29 @@ def main() -> int:
         kw = {"parallel": True, "executor": ThreadPoolExecutor(2)}
     else:
         kw = {"parallel": False}
+    inputs = progs.real_inputs(prog)
+    if job.get("primed_inputs"):  # the same program given other values for every input
+        inputs = {k: _primed(v) for k, v in inputs.items()}
     try:
-        res = p.map(progs.real_inputs(prog), run_folder=folder, storage=job["storage"], cleanup=job["cleanup"], **progs.map_kwargs(prog), **kw)
+        res = p.map(inputs, run_folder=folder, storage=job["storage"], cleanup=job["cleanup"], **progs.map_kwargs(prog), **kw)
     except Exception as e:  # noqa: BLE001
         print("FAILED" + json.dumps({"type": type(e).__name__, "msg": str(e)[:300], "opens": counter["opens"]}))
         return 0
     outs = {o: progs.to_nested(res[o].output) for f in prog["funcs"] for o in f["outputs"]}
     print("RESULT" + json.dumps({"outputs": outs, "opens": counter["opens"], "renames": counter.get("renames", 0)}))
     return 0
+
+
+def _primed(v):
+    import numpy as np
+    if isinstance(v, np.ndarray):
+        w = np.empty(v.shape, dtype=object)
+        for idx in np.ndindex(v.shape):
+            w[idx] = f"{v[idx]}'"
+        return w
+    if isinstance(v, list):
+        return [_primed(y) for y in v]
+    return f"{v}'"
 
 
 if __name__ == "__main__":
